@@ -44,13 +44,18 @@ RULE = ("seeded generator (VERIF_SEED). S: scripted peer vs real endpoint (roles
 STATIC_FINDINGS = ()
 
 
+_GM_IDS = {"e013", "e053"}
+_TLS_IDS = {"002f", "c02f", "c013", "009c"}
+
+
 def _kv(s):
     return dict(x.split("=", 1) for x in s.split(","))
 
 
 def _r_legal(f):
-    """R case: is the scripted peer's behaviour a legal GMSSL handshake (messages in the honest order, Finished after
-    the one ChangeCipherSpec, ClientHello version 0x0101)?  Coalescing handshake messages into one record is legal."""
+    """R case: is the scripted peer's behaviour a legal handshake - GMSSL for the victims sg / sa / cg (ClientHello version
+    0x0101), standard TLS with an RSA key exchange for st / ct - i.e. messages in the honest order, Finished after the one
+    ChangeCipherSpec?  Coalescing handshake messages into one record is legal."""
     victim, cfg, chv, packing = f[2], _kv(f[4]), f[5], f[6]
     flights = packing.split("/")
     if len(flights) != 2:
@@ -59,13 +64,14 @@ def _r_legal(f):
     if any("CCS" in r and len(r) > 1 for fl in recs for r in fl):
         return False
     flat = [[m for r in fl for m in r] for fl in recs]
-    if victim in ("sg", "sa"):
-        if chv != "0101":
+    if victim in ("sg", "sa", "st"):
+        if victim != "st" and chv != "0101":
             return False
         auth, cc = int(cfg["auth"]), cfg["cc"] == "1"
         want2 = (["CCERT"] if auth >= 1 else []) + ["CKX"] + (["CV"] if auth >= 1 and cc else []) + ["CCS", "FIN"]
         return flat[0] == ["CH"] and flat[1] == want2
-    want1 = ["SH", "CERT", "SKX"] + (["CR"] if cfg["cr"] == "1" else []) + ["SHD"]
+    # client victims: cg (GMSSL: ServerKeyExchange mandatory), ct (standard TLS, RSA key exchange: none)
+    want1 = ["SH", "CERT"] + (["SKX"] if victim == "cg" else []) + (["CR"] if cfg["cr"] == "1" else []) + ["SHD"]
     want2 = (["NST"] if cfg["tk"] == "1" else []) + ["CCS", "FIN"]
     return flat[0] == want1 and flat[1] == want2
 
@@ -103,6 +109,30 @@ def predicate(f, io):
             return False, "handshake reported complete although the peer deviated (packing/order %s, client_version %s)" % (f[6], f[5])
         if io[0] not in ("ok", "err"):
             return False, "unexpected outcome " + io[0]
+        # positive control: a legal handshake of the scripted peer must complete, unless the ClientAuth policy forbids it
+        if _r_legal(f):
+            cfg = _kv(f[4])
+            must_fail = f[2] in ("sg", "sa", "st") and int(cfg["auth"]) in (2, 4) and cfg["cc"] == "0"
+            if (io[0] == "ok") == must_fail:
+                return False, "control: a legal handshake %s (%s)" % ("completed against the ClientAuth policy" if must_fail else "did not complete", f[6])
+        return True, ""
+    if op == "V":
+        # version gate, stated without the model: a ClientHello version that is not implemented is never answered with a
+        # ServerHello; an answer carries an implemented version not above the offer (GMSSL 0x0101 only for an offer of 0x0101,
+        # never from the TLS-only server) and one of the offered suites
+        v, role, ss = int(f[3], 16), f[2], f[4]
+        if io[0] == "acc":
+            a = int(io[1], 16)
+            if v < 0x0300 and v != 0x0101:
+                return False, "a ClientHello with the unsupported version %04x was answered with a ServerHello" % v
+            if a not in (0x0101, 0x0300, 0x0301, 0x0302, 0x0303) or (a == 0x0101) != (v == 0x0101) or \
+               (v != 0x0101 and a != min(v, 0x0303)) or (role == "st" and a == 0x0101):
+                return False, "ServerHello version %04x for ClientHello version %04x" % (a, v)
+            offered = {"gm": _GM_IDS, "tls": _TLS_IDS}.get(ss, _GM_IDS | _TLS_IDS)
+            if io[2] not in offered:
+                return False, "ServerHello selects suite %s which was not offered" % io[2]
+        elif io[0] != "rej":
+            return False, "unexpected outcome " + io[0]
         return True, ""
     if op == "PW":
         # marshal of a message value inside the canonical domain must be parsed back to the same value by the
@@ -114,6 +144,15 @@ def predicate(f, io):
         # both ends complete or both fail: never one side complete with the other failed
         if len(io) < 2 or (io[0] == "ok") != (io[1] == "ok"):
             return False, "honest run: one side completed and the other did not"
+        # positive controls: a GMSSL client with a GMSSL-capable server (gg, ga), a TLS client with a TLS-capable server
+        # (tt, ta) complete unless the ClientAuth policy wants a certificate the client does not have; a GMSSL client with
+        # the TLS-only server and a TLS client with the GMSSL-only server (gt, tg) fail.  (Suite c013 is not in the
+        # package's table: recorded observation, the pair fails.)
+        cfg = _kv(f[3])
+        compatible = f[2] in ("gg", "ga", "tt", "ta") and cfg["su"] != "c013"
+        forbidden = int(cfg["auth"]) in (2, 4) and cfg["cc"] == "0"
+        if (io[0] == "ok") != (compatible and not forbidden):
+            return False, "honest run %s %s: %s" % (f[2], f[3], "did not complete" if io[0] != "ok" else "completed although the modes / the ClientAuth policy exclude it")
         return True, ""
     return True, ""
 
